@@ -257,10 +257,55 @@ def run(R):
                 "send() is reachable while an error is pending (the test is not `%s is None`: an exception object whose truth value is false - an "
                 "empty aggregate error, one defining __bool__/__len__ - counts as no error): the failure is dropped and the task resumes with None" % ep,
                 scfg_.fmt_path(p) if p else None)
+    stamp_contained(R, ro, hier, "C02.CAPTURE")
     last_value_fresh(R, ro, "C02.FLOW-FRESH")
     exits_do_not_suppress(R, "C02.EXIT-PROPAGATES")
     R.require_min("C02.FLOW-THROW", 3)
     R.require_min("C02.ESCAPE", 3)
+
+
+def stamp_contained(R, ro, hier, rule):
+    """The exception a task failed with is a user object.  Where the task records bookkeeping on it (error._task = ..., qcore's
+    prepare_for_reraise, which sets _type_/_traceback) the object may refuse: a frozen dataclass exception or a class with a
+    restrictive __setattr__ raises from the assignment - inside the very handler that is capturing the failure, so the capture is
+    lost and an AttributeError/TypeError unwinds the scheduler instead of the failure being delivered.  Every such store on an
+    object not yet known to accept attributes is contained (try/except covering Exception)."""
+    n = 0
+    for m in ro.AsyncTask.methods.values():
+        cfg = None
+        for node in q.scope_nodes(m.node):
+            subj = None
+            if isinstance(node, ast.Attribute) and isinstance(node.ctx, ast.Store) and isinstance(node.value, ast.Name) and node.value.id != "self" \
+                    and node.attr in ("_task", "_traceback", "_type_"):
+                subj = node.value.id
+            elif isinstance(node, ast.Call) and (q.call_name(node) or "").endswith("prepare_for_reraise") and node.args and isinstance(node.args[0], ast.Name):
+                subj = node.args[0].id
+            if subj is None:
+                continue
+            n += 1
+            prot = any(kit.handler_covers(h, "Exception", hier) and not kit.handler_reraises(h) for t in kit.enclosing_try_handlers(node) for h in t.handlers)
+            if not prot:
+                # known to accept attributes: dominated by the true edge of hasattr(<subj>, ...)
+                cfg = cfg or cfg_of(m)
+                st = q.enclosing_stmt(node)
+                nodes = [x for x in cfg.nodes if x.stmt is st]
+
+                def stamped(nd, subj=subj):
+                    if nd.kind != "test":
+                        return None
+                    k_, s_, pos_ = q.atom_test(nd.ast)
+                    if k_ == "call" and s_ == "hasattr" and isinstance(nd.ast, (ast.Call, ast.UnaryOp)):
+                        c_ = nd.ast.operand if isinstance(nd.ast, ast.UnaryOp) else nd.ast
+                        if isinstance(c_, ast.Call) and c_.args and q.src(c_.args[0]) == subj:
+                            return "T" if pos_ else "F"
+                    return None
+                prot = bool(nodes) and kit.path_avoiding_guard(cfg, nodes, stamped, N, dead_ok=True) is None and bool(kit.guard_edges_exist(cfg, stamped))
+            R.check(prot, rule, "%s:stamp:%s" % (m.qualname, q.stmt_key(q.enclosing_stmt(node))[:40]), R.site(m, node),
+                    "bookkeeping on the exception object `%s` is contained (or the object is known to accept attributes)" % subj,
+                    "%s records bookkeeping on the exception object (`%s`) with nothing containing a refusal: an exception class that does not accept new "
+                    "attributes (a frozen dataclass, a restrictive __setattr__) makes this raise inside the handler that captures the task's failure - "
+                    "FrozenInstanceError/TypeError unwinds the scheduler and the failure is never delivered" % (m.qualname, q.src(q.enclosing_stmt(node))[:50]))
+    R.need(n >= 3, "fewer bookkeeping stores on exception objects than confirmed by hand (%d < 3)" % n)
 
 
 def last_value_fresh(R, ro, rule):
@@ -322,7 +367,7 @@ def exits_do_not_suppress(R, rule):
         if not [x for x in q.scope_nodes(m.node) if isinstance(x, ast.Return)]:
             n += 1
             R.ok(rule, R.site(m), "%s.__exit__ has no return statement" % c.name)
-    R.need(n >= 3, "fewer __exit__ methods than confirmed by hand (%d < 3)" % n)
+    R.need(n >= 2, "fewer __exit__ methods than confirmed by hand (%d < 2)" % n)
 
 
 def batch_err(R, ro, rule, hier):
@@ -365,6 +410,34 @@ def batch_err(R, ro, rule, hier):
             R.check(ok and p2 is None, rule, "%s:stores" % bc.qualname, R.site(bc, h),
                     "the caught flush error is stored on the batch (set_error with the same object) unless the batch is already computed",
                     "a flush error can be dropped, or is stored without checking that the batch is not computed yet")
+    # no arm of that try swallows what the flush body raised without completing the batch: every handler stores the error unless the
+    # batch is computed (a flush body that answers one item twice raises FutureIsAlreadyComputed - an arm that passes on it because
+    # "the batch was cancelled meanwhile" leaves the batch pending: flush() returns, the items never complete, a second flush runs the body again)
+    cfg0 = cfg_of(bc)
+
+    def unc0(nd):
+        if nd.kind != "test":
+            return None
+        k, s_, pos = q.atom_test(nd.ast)
+        if k == "call" and s_ in ("self.is_computed", "self.is_flushed"):
+            return "F" if pos else "T"
+        return None
+    for n, c in fl:
+        for t in kit.enclosing_try_handlers(c)[:1]:
+            for h in t.handlers:
+                hn_ = cfg0.nodes_for(h)
+                stores_ = [nn for nn, cc in kit.call_sites(bc, lambda x: q.call_name(x) in ("self.set_error", "self.cancel")) if any(cc is sub for sub in ast.walk(h))]
+                rer = [x for x in cfg0.nodes if x.kind == "stmt" and isinstance(x.ast, ast.Raise) and any(x.ast is sub for sub in ast.walk(h))]
+
+                def computed_edge(e):
+                    lab = unc0(cfg0.nodes[e.src])
+                    return lab is not None and e.label != lab and e.label in ("T", "F")
+                p = cfg0.find_path(hn_, [cfg0.exit], N, cut_nodes=stores_ + rer, keep_edge=lambda e: not computed_edge(e)) if hn_ else None
+                R.check(p is None, rule, "%s:handler:%s" % (bc.qualname, q.src(h.type)[:30] if h.type is not None else "bare"), R.site(bc, h),
+                        "the `except %s` arm completes the batch unless it is computed already" % (q.src(h.type)[:30] if h.type is not None else ""),
+                        "the `except %s` arm of BatchBase._compute can return without completing the batch and without having found it computed: a flush body "
+                        "that raises this leaves the batch pending - flush() returns normally, the items it did not reach never complete and a second flush() "
+                        "runs the body again" % (q.src(h.type)[:40] if h.type is not None else ""), cfg0.fmt_path(p) if p else None)
     # every completion of the batch inside _compute is protected against "already completed" (the flush body may have completed
     # the batch itself, e.g. through the public cancel()): it sits in the try whose BaseException handler tests is_computed(),
     # or is itself guarded by that test - FutureIsAlreadyComputed must not escape from a flush
